@@ -3,7 +3,7 @@
 
 namespace hz {
 
-static const uint64_t kBlocksPerByte = 20000;
+static const uint64_t kBlocksPerByte = 3000;
 
 Outcome RunC10(RunCtx& ctx)
 {
